@@ -35,6 +35,8 @@ class Node:
     desc: str = ""
     param: bool = False            # leaf realised as a torch.nn.Parameter (what `module.parameters()` yields)
     flip: bool = False             # leaf realised in the OTHER floating dtype than the one the program is built in
+    alias: int | None = None       # leaf realised as a NEW leaf tensor over the memory of an earlier leaf (`nn.Parameter(enc)`,
+    #                                `enc.detach().requires_grad_()`): a different tensor with its own .grad and its own columns
     layout: tuple | None = None    # leaf memory layout: ("perm", dims) = strides of a permuted tensor, ("step", k) = every
     #                                k-th element of a larger buffer; None = contiguous.  Values / shape are logical.
 
@@ -73,7 +75,7 @@ class Program:
         cache = {}
         for i, nd in enumerate(self.nodes):
             if nd.kind == "leaf":
-                t = realise_leaf(nd, dtype)
+                t = ts[nd.alias].detach() if nd.alias is not None else realise_leaf(nd, dtype)
                 if nd.param:
                     t = torch.nn.Parameter(t, requires_grad=nd.rg)
                 else:
@@ -111,7 +113,7 @@ class Program:
 
     def describe(self):
         return [f"{i}:{nd.kind}{list(nd.shape)}{'' if nd.rg else '!rg'} {nd.desc}"
-                + (f" layout={nd.layout}" if nd.layout else "") + (" other-dtype" if nd.flip else "")
+                + (f" layout={nd.layout}" if nd.layout else "") + (" other-dtype" if nd.flip else "") + (f" shares-memory-with-n{nd.alias}" if nd.alias is not None else "")
                 + (" nn.Parameter" if nd.param else "")
                 for i, nd in enumerate(self.nodes)]
 
@@ -354,14 +356,30 @@ def random_program(rng, n_leaves=None, n_ops=None, p_norg=0.15, max_numel=8, max
     for _ in range(200):
         P = Program()
         nl = n_leaves or rng.choice([1, 2, 2, 3, 3, 4])
-        for _ in range(nl):
+        for li in range(nl):
             sh = rng.choice(SHAPES)
             vals = [rng.choice([-3, -2, -1, 1, 2, 3, 0]) for _ in range(numel(sh))]
+            if li > 0 and rng.random() < 0.08:
+                # two DIFFERENT leaf tensors over one memory (a tied weight re-wrapped in a new Parameter): same values, same
+                # layout — and each of them has its own Jacobian columns and its own .grad
+                src = rng.randrange(li)
+                sn = P.nodes[src]
+                P.add_leaf(sn.shape, list(sn.vals), rg=rng.random() >= p_norg, layout=sn.layout)
+                P.nodes[-1].alias = src
+                continue
             P.add_leaf(sh, vals, rg=rng.random() >= p_norg, layout=random_layout(rng, sh))
         if nl >= 2 and rng.random() < 0.12:
             # parameters of different precisions in one model (a float32 network with a float64 parameter, or the reverse)
             P.nodes[rng.randrange(nl)].flip = True
             P.casts = True
+            for nd in P.nodes[:nl]:
+                if nd.alias is not None:
+                    nd.flip = P.nodes[nd.alias].flip
+            for nd in P.nodes[:nl]:
+                if nd.alias is None and any(o.alias is not None and P.nodes[o.alias] is nd for o in P.nodes[:nl]):
+                    for o in P.nodes[:nl]:
+                        if o.alias is not None and P.nodes[o.alias] is nd:
+                            o.flip = nd.flip
         if not any(P.nodes[i].rg for i in P.leaves()):
             P.nodes[0].rg = True
         k = n_ops or rng.choice([1, 2, 3, 4, 5, 6, 8])
@@ -522,6 +540,11 @@ def random_mtl(rng, heads_disjoint=True, max_abs=300):
                 # respect to them is exactly zero (the sweep still has to be made)
                 used_feats = [P.add_aff(lambda x: x[0] * 0, [f], f"n{f}*0")[0] for f in used_feats]
                 M.masked_tasks.append(t)
+            if own and any(P.nodes[l].rg for l in own) and rng.random() < 0.08:
+                # a task whose loss does not pass through the features at all: a pure regulariser on its own parameters, or a
+                # head reading `features.detach()` (stop-gradient) — legal: its row of the trunk Jacobian is zero
+                used_feats = [P.add_detach(f) for f in used_feats] if rng.random() < 0.5 else []
+                M.feature_free_tasks = getattr(M, "feature_free_tasks", []) + [t]
             hp = list(used_feats) + own
             if not heads_disjoint and rng.random() < 0.3 and M.shared_leaves:
                 inner = [i for i in trunk if i not in M.features]
@@ -538,6 +561,8 @@ def random_mtl(rng, heads_disjoint=True, max_abs=300):
                 consumed.update(P.parents(n))
             sinks = [n for n in dict.fromkeys(hp) if n not in consumed]
             loss = to_scalar(rng, P, sinks)
+            if P.nodes[loss].kind == "leaf":
+                loss = P.add_aff(lambda x: x[0] * 2, [loss], f"2*n{loss}")[0]       # (a loss is a computed tensor, not a parameter)
             if not P.requires_grad(loss):
                 ok = False
                 break
